@@ -181,12 +181,16 @@ class Indicator(ABC):
                 else:
                     indicator.calculate()
 
-    def calculate(self):
-        """Calculate the TA values, will calculate for all the Candles,
-        where this indicator is missing"""
+    def _ensure_initialised(self):
+        """Sub and managed indicators are set up on first use, not only by calculate()"""
         if not self._initialised:
             self._initialise()
             self._initialised = True
+
+    def calculate(self):
+        """Calculate the TA values, will calculate for all the Candles,
+        where this indicator is missing"""
+        self._ensure_initialised()
 
         self._calculate_sub_indicators(prior_calc=True)
 
@@ -210,6 +214,8 @@ class Indicator(ABC):
             end_index += len(self.candles)
 
         end_index = end_index if end_index else start_index + 1
+
+        self._ensure_initialised()
 
         self._calculate_sub_indicators(True, start_index, end_index)
 
@@ -315,6 +321,7 @@ class Indicator(ABC):
     def _owned_names(self) -> set:
         """Names of every reading this indicator writes: its own and, at any depth,
         those of its sub and managed indicators"""
+        self._ensure_initialised()
         names = {self.name}
         for indicator in list(self.sub_indicators.values()) + list(
             self.managed_indicators.values()
